@@ -15,8 +15,8 @@
    encoders for every source format, destination re-read and compared with the composed specifications of the
    operations, which are themselves the theorems of C09-C15): correspondence/exploration, not proof. *)
 From Coq Require Import List ZArith NArith.
-From Astisub Require Import Kit.Base Kit.Str Model.Files Model.Ops Model.Srt Model.Vtt Model.Conv Model.ConvOps Model.Plain Proofs.FilesProofs.
-From Astisub Require Import Proofs.SrtProofs Proofs.VttDoc Proofs.ConvProofs Proofs.ConvOpsProofs Proofs.PlainProofs.
+From Astisub Require Import Kit.Base Kit.Str Model.Files Model.Ops Model.Srt Model.Vtt Model.Conv Model.ConvOps Model.Plain Model.PlainOps Proofs.FilesProofs.
+From Astisub Require Import Proofs.SrtProofs Proofs.VttDoc Proofs.ConvProofs Proofs.ConvOpsProofs Proofs.PlainProofs Proofs.PlainOpsProofs.
 Import ListNotations.
 
 (* SubRip file -> WebVTT file: cues, order, times to the millisecond, text per line *)
@@ -88,6 +88,26 @@ Print Assumptions C07_srt_plain_faithful.
 Theorem C07_vtt_plain_faithful : plain_faithful 1000000 vtt_plain_ok vtt_enc vtt_dec.
 Proof. exact vtt_plain_faithful. Qed.
 Print Assumptions C07_vtt_plain_faithful.
+(* ... and with any sequence of the documented operations in between (they act on the plain cue list through the operation
+   models of C09-C15): the destination reads back as the operations applied to the source's cues, truncated to the
+   destination's unit; whatever the operations, every resulting cue's lines are those of a source cue (of the document or
+   of a merged one), so the text stays representable *)
+Theorem C07_pair_ops : forall uA okA encA decA uB okB encB decB,
+  plain_faithful uA okA encA decA -> plain_faithful uB okB encB decB ->
+  forall ops p, okA p -> okB (ops_plain ops (ptrunc uA p)) ->
+  exists src dst, encA p = Ok src /\ convert_plain_ops decA encB ops src = Ok dst /\
+                  decB dst = Ok (ptrunc uB (ops_plain ops (ptrunc uA p))).
+Proof. exact plain_ops_pair. Qed.
+Print Assumptions C07_pair_ops.
+Theorem C07_ops_plain_keep_lines : forall (Q : list str -> Prop) ops p,
+  Forall (fun c : pcue => Q (snd c)) p -> Forall (pop_ok Q) ops -> Forall (fun c : pcue => Q (snd c)) (ops_plain ops p).
+Proof. exact ops_plain_keep_lines. Qed.
+Print Assumptions C07_ops_plain_keep_lines.
+Example C07_pair_ops_example :
+  ops_plain ex_pops ex_pplain =
+  [(0%Z, 400000000%Z, [[65]%N]); (1500000000%Z, 5500000000%Z, [[72; 105]%N]); (6500000000%Z, 7500000000%Z, [[89; 111]%N])].
+Proof. exact ex_pops_result. Qed.
+
 Example C07_plain_example : srt_plain_ok ex_plain /\ vtt_plain_ok (ptrunc 1000000 ex_plain).
 Proof. split; [exact ex_plain_srt_ok | exact ex_plain_vtt_ok]. Qed.
 
